@@ -173,12 +173,25 @@ Fixpoint bad_steps (tol : Q) (i : nat) (ms : list (option sampler)) (os : list o
   | _, _ => [i]
   end.
 
-(* run_trace: indices of the steps at which the model and the implementation's observations differ,
-   and the arg-max selection (summary / export) of the final coefficients *)
+(* ---- decoding of the harness data (keeps the generated literals small: Coq elaborates big number
+   literals slowly).  q30 n = n / 2^30 (coefficients, noise, observed theta on that grid);
+   qexp (m, e) = m * 2^e (the float64 exponentials, mantissa cut to 30 bits);
+   tab_block T xs vs: the table entries of one forward pass, keys x / T computed here *)
+Definition q30 (n : Z) : Q := n # 1073741824.
+Definition cols30 (m : list (list Z)) : list (list Q) := map (map q30) m.
+Definition qexp (me : Z * Z) : Q :=
+  let (m, e) := me in
+  if (0 <=? e)%Z then inject_Z (m * 2 ^ e) else m # (Z.to_pos (2 ^ (- e))).
+Definition tab_block (T : Q) (xs : list Z) (vs : list (Z * Z)) : list (Q * Q) :=
+  combine (map (fun x => q30 x / T) xs) (map qexp vs).
+
+(* run_trace: indices (from `skip` on) of the steps at which the model and the implementation's
+   observations differ (os = observations of the steps skip, skip+1, ...), and the arg-max selection
+   (summary / export) of the final coefficients *)
 Definition run_trace (keep fixc : bool) (k : kind) (tab : list (Q * Q)) (tol : Q)
-           (s : sampler) (ops : list sop) (os : list obs) : list nat * list nat :=
+           (s : sampler) (ops : list sop) (skip : nat) (os : list obs) : list nat * list nat :=
   let ms := trace (g_tab tab) (mkCfg keep fixc) k s ops in
-  (bad_steps tol 0 ms os,
+  (bad_steps tol skip (skipn skip ms) os,
    match last ms None with Some s' => selected (alpha s') | None => selected (alpha s) end).
 
 Definition run_selected (alpha : list (list Q)) : list nat := selected alpha.
